@@ -25,6 +25,12 @@ def cases(ctx):
             ws = ws[:4] + rng.sample(ws[4:], 10)
         if not thorough or ctx.mine(i):
             yield {'kind': 'cnf', 'G': G, 'words': ws}
+    for i in range(40 if not thorough else 400):
+        G = gen.ambiguous_cfg2(rng) if i % 2 else gen.ambiguous_cfg(rng)
+        ws = [w for w in gen.all_words(G['Sigma'], 3) if w]
+        if len(ws) > 25:
+            ws = ws[:5] + rng.sample(ws[5:], 20)
+        yield {'kind': 'cnf', 'G': G, 'words': ws}
     for i in range(300 if not thorough else 4000):
         G = gen.random_cfg(rng, maxlen=3, multichar=rng.random() < 0.3)
         Sig = sorted(G['Sigma']) or ['a']
